@@ -52,8 +52,9 @@ RULE = ('13 base workflows (dirchain: P -> Q consuming the directory of P -> C c
         'the hashes are first read and present afterwards - the hashes read then must be those of the complete world) + the ambiguity alphabet '
         '(executable x arguments over concatenations of {a, executable}; ("ab","c")/("a","bc"); executable x file list '
         'with executables that contain "files<md5>:method"; image x arguments with "commandarguments" inside). '
-        'thorough adds every pair of variations of two different aspect families per base and a larger ambiguity '
-        'alphabet; VERIF_SEED rotates a 1/64 stratum of those pairs into the quick tier. Every world is a separate '
+        'thorough adds every pair of variations of two different aspect families per base in which at least one '
+        'aspect is not of the irrelevant kind, a fixed third of the pairs of two irrelevant aspects (long files and '
+        'stream contents are only varied alone) and a larger ambiguity alphabet; VERIF_SEED rotates a 1/64 stratum of those pairs into the quick tier. Every world is a separate '
         'real instance. A case = one (parent, variant) pair, non-trivial when the two worlds differ; distinct = '
         'distinct (base, variation path); all other pairs of records (every component of every world, producers '
         'included) are judged through the partition comparison (counted in all_pairs_judged). For every component of '
@@ -137,6 +138,8 @@ def world_table(thorough, seed):
                 k += 1
                 if not thorough and (k + seed) % 64 != 0:
                     continue
+                if thorough and g1 in IRRELEVANT_GROUPS and g2 in IRRELEVANT_GROUPS and k % 3 != 0:
+                    continue        # cost: a fixed third of the pairs of two irrelevant aspects
                 if not thorough and (g1 == 'missing' or g2 == 'missing'):
                     continue
                 table.append({'wid': '%s|%s|%s' % (bn, l1, l2), 'parents': ['%s|%s' % (bn, l1), '%s|%s' % (bn, l2)],
